@@ -99,6 +99,9 @@ var repeat int = -1
 // advertising spoofing for target LLAs.
 func (h *Handler6) ProcessPacket(pkt packet.Frame) (err error) {
 	ip6Frame := pkt.IP6()
+	if err := ip6Frame.IsValid(); err != nil { // ICMPv6 not carried by IPv6 (e.g. an IPv4 packet with protocol 58): no IPv6 header to read
+		return err
+	}
 	icmp6Frame := packet.ICMP(pkt.Payload())
 
 	if err := icmp6Frame.IsValid(); err != nil {
